@@ -671,6 +671,36 @@ func c17(x *Ctx) {
 		if len(hashCalls) == 0 {
 			c.Violate(rS, "loadPeerList/hashes", x.PosOf(lp.Pos()), "no shard hashes are computed")
 		}
+		// every partition entry that goes into the table was computed in this very rebuild: an entry carries the
+		// peer's index in the sorted list of this rebuild, so entries remembered from an earlier rebuild (a memo
+		// kept across membership changes) point at whoever has that index now
+		nApp := 0
+		eng.Instrs(lp, func(in ssa.Instruction) {
+			cl, ok := in.(*ssa.Call)
+			if !ok {
+				return
+			}
+			b, isB := cl.Call.Value.(*ssa.Builtin)
+			if !isB || b.Name() != "append" || len(cl.Call.Args) != 2 || !typeContains(cl, "hashShard") {
+				return
+			}
+			nApp++
+			c.Examined++
+			fresh := x.mustDerive(cl.Call.Args[1], func(v ssa.Value) bool {
+				c2, isCall := v.(*ssa.Call)
+				if !isCall {
+					return false
+				}
+				for _, h := range hashCalls {
+					if h == ssa.Instruction(c2) {
+						return true
+					}
+				}
+				return false
+			})
+			c.Decide(fresh, rS, "loadPeerList/hashes-computed-in-this-rebuild", x.Pos(in), "partition entries appended to the table come from this rebuild's GetHashesFor calls",
+				"partition entries are appended to the table from somewhere else than this rebuild's GetHashesFor calls (remembered from an earlier rebuild): they carry the index their peer had in the earlier sorted list, so after a membership change they point at another peer and nodes that started at different moments disagree on owners")
+		})
 		// stores of peers and hashes under the write lock, together
 		peersF, hashesF := eng.FieldIs("sharder", "DeterministicSharder", "peers"), eng.FieldIs("sharder", "DeterministicSharder", "hashes")
 		var ps, hs *ssa.Store
